@@ -18,6 +18,9 @@ EXTENDS Naturals, Sequences, FiniteSets, TLC, Json
 Kinds == {"token", "regex", "skip"}
 Named == {"priority", "callback", "ignore", "allow_greedy"}
 Items == {"skip", "extras", "error", "subA", "subB", "utf8", "lifetime", "ltnone", "type"}
+(* items that change nothing about the lexer itself (where the crate is, where graphs are exported to): *)
+(* listed anywhere, they must not change what the items around them mean                                *)
+Neutral == {"crate", "export_dir"}
 
 Injective(s) == \A i, j \in DOMAIN s : i # j => s[i] # s[j]
 Perms(S) == {s \in [1..Cardinality(S) -> S] : Injective(s)}
@@ -38,6 +41,8 @@ Toks(arg) == CASE arg = "lit"          -> <<"Lit">>
                [] arg = "lifetime"     -> <<"Ident", "Eq", "Other">>                  \* lifetime = 'a
                [] arg = "ltnone"       -> <<"Ident", "Eq", "Ident">>                  \* lifetime = none
                [] arg = "type"         -> <<"Ident", "Ident", "Eq", "Other", "Other", "Ident">>   \* type T = &'a str
+               [] arg = "crate"        -> <<"Ident", "Eq", "Other", "Ident">>                    \* crate = ::logos
+               [] arg = "export_dir"   -> <<"Ident", "Eq", "Lit">>                               \* export_dir = "dir"
 
 RECURSIVE Stream(_)
 Stream(args) == IF args = <<>> THEN <<>>
@@ -89,7 +94,10 @@ AttrCasesFor(k, p) == {[t |-> "attr", kind |-> k, poscb |-> p, named |-> pc[1], 
                                   (q[2] = "none") = ~HasCb(p, q[1])}}
 AttrCases == UNION {AttrCasesFor(k, p) : k \in Kinds, p \in BOOLEAN}
 ItemCases == {[t |-> "items", kind |-> "logos", poscb |-> FALSE, named |-> s, cbv |-> "none"] :
-                s \in {q \in UNION {Perms(S) : S \in {T \in SUBSET Items : Cardinality(T) >= 2 /\ Cardinality(T) <= 5 /\ ("subB" \in T => "subA" \in T)
+                s \in {q \in UNION {Perms(S) : S \in {T \in SUBSET (Items \cup Neutral) :
+                                                                   /\ Cardinality(T) >= 2
+                                                                   /\ Cardinality(T) <= (IF T \cap Neutral = {} THEN 5 ELSE 4)
+                                                                   /\ ("subB" \in T => "subA" \in T)
                                                                    /\ ~({"lifetime", "ltnone"} \subseteq T)}} :
                          \A i, j \in DOMAIN q : (q[i] = "subA" /\ q[j] = "subB") => i < j}}
 
